@@ -27,7 +27,7 @@ MODEL_FILES = ['MaltModel/Func/Target.lean', 'MaltModel/Func/Functionalise.lean'
                'MaltModel/Proofs/FuncFBasic.lean', 'MaltModel/Proofs/FuncFSim.lean', 'MaltModel/Proofs/FuncBlockVars.lean',
                'MaltModel/Drv/C02.lean']
 FUEL = 400
-CLASSES = ['for_target_live_across_zero_trip', 'nonlocal_write_in_reaching_closure',
+CLASSES = ['for_target_live_across_zero_trip',
            'nested_function_parameter_shadows_global', 'state_var_unbound_local_of_enclosing_body',
            'nonlocal_state_var_marked_input_only']
 
@@ -35,45 +35,6 @@ CLASSES = ['for_target_live_across_zero_trip', 'nonlocal_write_in_reaching_closu
 # ------------------------------------------------------------------------------------------------
 # class predicates (computed from the program, never from the failure)
 # ------------------------------------------------------------------------------------------------
-def cls_closure_nonlocal(fn_node):
-    """A nested def declares a variable `v` of the function `nonlocal` (so liveness does not see its accesses to `v`),
-    and the function itself assigns `v` inside one of its own if/while/for bodies (the write that gets lost)."""
-    decl = set()
-    for n in ast.walk(fn_node):
-        if isinstance(n, ast.FunctionDef) and n is not fn_node:
-            for m in ast.walk(n):
-                if isinstance(m, ast.Nonlocal):
-                    decl |= set(m.names)
-    if not decl:
-        return False
-
-    def stores(stmts, in_cf):
-        for s in stmts:
-            if isinstance(s, (ast.FunctionDef, ast.ClassDef)):
-                continue
-            cf = in_cf or isinstance(s, (ast.If, ast.While, ast.For))
-            if in_cf:
-                for m in ast.walk(s):
-                    if isinstance(m, (ast.FunctionDef, ast.Lambda)):
-                        continue
-                    if isinstance(m, ast.Name) and isinstance(m.ctx, ast.Store) and m.id in decl:
-                        return True
-            for sub in ('body', 'orelse', 'finalbody'):
-                b = getattr(s, sub, None)
-                if isinstance(b, list) and b and isinstance(b[0], ast.stmt) and stores(b, cf):
-                    return True
-            if isinstance(s, ast.Try):
-                for h in s.handlers:
-                    if stores(h.body, cf):
-                        return True
-            if isinstance(s, ast.For) and in_cf is False and cf:
-                for m in ast.walk(s.target):
-                    if isinstance(m, ast.Name) and m.id in decl:
-                        return True
-        return False
-    return stores(fn_node.body, False)
-
-
 def cls_param_shadows_global(fn_node, module_names):
     """A parameter of a nested def/lambda has the name of a module global that the enclosing function reads."""
     params = set()
@@ -96,15 +57,11 @@ def cls_param_shadows_global(fn_node, module_names):
     return False
 
 
-def cls_nonlocal_input_only(cf_node, annos_of):
-    """Inside a function that declares `v` nonlocal/global, a conditional assigns `v` in a branch while `v` is live into
-    the conditional but not live after it *within that function* (liveness does not know that a nonlocal/global escapes):
-    `_get_block_vars` marks `v` input-only, i.e. not among the first `nouts` outputs."""
-    if cf_node is None:
-        return False
-
+def cls_nonlocal_input_only(source_fn):
+    """Syntactic (the annotations vary with PYTHONHASHSEED since ccf3d44): a nested def declares `v` nonlocal/global and
+    contains an `if` that assigns `v` in a branch and reads `v` in its test or branches (so `v` is live into the
+    conditional; liveness inside that function does not know that `v` escapes, so it need not be live after it)."""
     def own_stmts(fn):
-        """statements of fn, not descending into nested defs"""
         stack = list(fn.body)
         while stack:
             s = stack.pop()
@@ -118,18 +75,8 @@ def cls_nonlocal_input_only(cf_node, annos_of):
             if isinstance(s, ast.Try):
                 for h in s.handlers:
                     stack.extend(h.body)
-
-    def stores(stmts):
-        out = set()
-        for s in stmts:
-            if isinstance(s, (ast.FunctionDef, ast.ClassDef)):
-                continue
-            for m in ast.walk(s):
-                if isinstance(m, ast.Name) and isinstance(m.ctx, ast.Store):
-                    out.add(m.id)
-        return out
-    for fn in ast.walk(cf_node):
-        if not isinstance(fn, ast.FunctionDef):
+    for fn in ast.walk(source_fn):
+        if not isinstance(fn, ast.FunctionDef) or fn is source_fn:
             continue
         decl = set()
         for s in own_stmts(fn):
@@ -139,11 +86,14 @@ def cls_nonlocal_input_only(cf_node, annos_of):
             continue
         for s in own_stmts(fn):
             if isinstance(s, ast.If):
-                an = annos_of(s)
-                mod = stores(s.body) | stores(s.orelse)
-                for v in decl & mod:
-                    if v in an.get('LIVE_VARS_IN', []) and v not in an.get('LIVE_VARS_OUT', []):
-                        return True
+                stores, loads = set(), set()
+                for m in ast.walk(s):
+                    if isinstance(m, ast.Name):
+                        (stores if isinstance(m.ctx, ast.Store) else loads).add(m.id)
+                    elif isinstance(m, ast.AugAssign) and isinstance(m.target, ast.Name):
+                        loads.add(m.target.id)
+                if decl & stores & loads:
+                    return True
     return False
 
 
@@ -151,8 +101,8 @@ def closure_reads_live(cf_node, annos_of):
     """LiveConsistent-style check on the REAL annotations for what the Lean fragment does not contain: a statement that
     calls a local function `g` reads the enclosing function's variables that `g` reads, so they must be in the statement's
     LIVE_VARS_IN (also when the same statement rebinds them).  Returns [(kind, variable, statement)]:
-    kind 'closure-call:nonlocal' = the variable is declared nonlocal in g (known finding class
-    nonlocal_write_in_reaching_closure), 'closure-call:reads' = anything else (no known class)."""
+    kind 'closure-call:nonlocal' = the variable is declared nonlocal in g (was the finding nonlocal_write_in_reaching_closure,
+    fixed by ccf3d44), 'closure-call:reads' = anything else; neither is in a known class any more."""
     out = []
     if cf_node is None:
         return out
@@ -286,13 +236,13 @@ def classify(source_fn, module_names, cf_node, annos_of, final_fn):
     out = []
     if cf_node is not None and B.for_target_class(cf_node, annos_of):
         out.append('for_target_live_across_zero_trip')
-    if cls_closure_nonlocal(source_fn):
-        out.append('nonlocal_write_in_reaching_closure')
+    # (nonlocal_write_in_reaching_closure was fixed by ccf3d44: no longer attributable, a recurrence is a violation;
+    #  its witnesses are in corpus/C02 and must pass)
     if cls_param_shadows_global(source_fn, module_names):
         out.append('nested_function_parameter_shadows_global')
     if final_fn is not None and risk_state_unbound(final_fn):
         out.append('state_var_unbound_local_of_enclosing_body')
-    if cls_nonlocal_input_only(cf_node, annos_of):
+    if cls_nonlocal_input_only(source_fn):
         out.append('nonlocal_state_var_marked_input_only')
     return out
 
@@ -572,7 +522,13 @@ def check(run, only=None):
         if r['shape']:
             stats['shape_mismatch'] += 1
             shape_problems.append({'source': r['fsrc'], 'problem': r['shape']})
-    nondet = [{'source': r['fsrc']} for r in recs if r['conv_error'] is None and not r['same_code']]
+    # two conversions of one function must generate the same code; since ccf3d44 `nouts` of a nonlocal state variable inside a
+    # nested function varies with set iteration order (finding C02-nonlocal-input-only): attributed to that class only
+    nondet_all = [r for r in recs if r['conv_error'] is None and not r['same_code']]
+    cov['nondeterministic_conversions'] = {'programs': len(nondet_all),
+                                           'in_class_nonlocal_state_var_marked_input_only':
+                                               len([r for r in nondet_all if 'nonlocal_state_var_marked_input_only' in r['classes']])}
+    nondet = [{'source': r['fsrc']} for r in nondet_all if 'nonlocal_state_var_marked_input_only' not in r['classes']]
     run.oblige('correspondence:conversion-deterministic', 'correspondence', not nondet,
                ('two conversions of the same function (default operators / tracing backend) generated different code: '
                 + json.dumps(nondet[:2])) if nondet else '')
@@ -585,7 +541,7 @@ def check(run, only=None):
     for r in recs:
         for kind, v, st in r.get('closure_live') or []:
             ck[kind] = ck.get(kind, 0) + 1
-            if kind != 'closure-call:nonlocal':
+            if True:    # 'closure-call:nonlocal' was the class of a finding fixed by ccf3d44: every kind is unattributed now
                 unattributed.append({'source': r['fsrc'], 'kind': kind, 'variable': v, 'statement': st})
     cov['closure_read_liveness_violations'] = ck
     run.oblige('checker:closure-reads-live-on-real-annotations', 'checker', not unattributed,
